@@ -227,11 +227,11 @@ func CreateCertificate(template, parent *Certificate, publicKey *sm2.PublicKey, 
 
 	c.Raw = tbsCertContents
 
+	// An SM2 signer hashes ZA || message itself and is verified against the raw
+	// TBS bytes; every other signer gets the digest. The choice follows the
+	// signer's key, not the requested algorithm (which may be left to default).
 	digest := tbsCertContents
-	switch template.SignatureAlgorithm {
-	case SM2WithSM3, SM2WithSHA1, SM2WithSHA256:
-		break
-	default:
+	if _, isSM2 := signer.Public().(*sm2.PublicKey); !isSM2 {
 		h := hashFunc.New()
 		h.Write(tbsCertContents)
 		digest = h.Sum(nil)
